@@ -5,7 +5,7 @@ import FeatModel.Model.Pool
 
     ops:  new a kind dt it n v | mat a kind dt it r c p v variant | band a dt it r noff v | adopt a b |
           range a b n off | clone a b mode fill | conv a b dt it | xconv a b | move a b | clear a | destroy a |
-          format a v | write a w j i v | lay l a | mlay a l kind dt fill | ldrop l | mk a kind dt it n v | copy a b full |
+          format a v | write a w j i v | lay l a | mlay a l kind dt fill | ldrop l | mk a kind dt it n v | copy a b full | lmove d src | lvec k |
           T2 t <op> <op> (tuple operation = two component operations) | end
 -/
 open FeatModel FeatModel.Proto FeatModel.Pool
@@ -34,6 +34,8 @@ def opP (name : String) : P Op := do
   | "lay" => let l ← nat; let a ← nat; pure (.lay l a)
   | "mlay" => let a ← nat; let l ← nat; let k ← nat; let dt ← nat; let f ← int; pure (.mlay a l k dt f)
   | "ldrop" => let l ← nat; pure (.ldrop l)
+  | "lmove" => let d ← nat; let src ← nat; pure (.lmove d src)
+  | "lvec" => let k ← nat; pure (.lvec k)
   | "copy" => let a ← nat; let b ← nat; let f ← nat; pure (.copy a b f)
   | "mk" => let a ← nat; let k ← nat; let dt ← nat; let it ← nat; let n ← nat; let v ← int
             pure (.mk a k dt it n v)
